@@ -338,15 +338,72 @@ pub fn check_read7(data: &[u8], scratch_len: usize) -> Result<ReadStats, String>
     Ok(st)
 }
 
+/// The two wire representations of one packet (payload Huffman-compressed or not) must read as the
+/// same value under the same token hint: decompression happens before anything else is interpreted.
+/// (0.7 control packets are left out: the token-request length rule looks at the datagram length.)
+pub fn compression_invariance(data: &[u8], hint: u8, is7: bool) -> Result<bool, String> {
+    let hdr = if is7 { 7 } else { 3 };
+    let (cflag, connless, control) = if is7 { (0x10u8, 0x20u8, 0x04u8) } else { (0x80u8, 0x20u8, 0x10u8) };
+    if data.len() < hdr || data.len() > 1400 || data[0] & connless != 0 || (is7 && data[0] & control != 0) {
+        return Ok(false);
+    }
+    let mut alt = data[..hdr].to_vec();
+    alt[0] ^= cflag;
+    if data[0] & cflag != 0 {
+        let mut out: Vec<u8> = Vec::with_capacity(2048);
+        if HUFFMAN.decompress(&data[hdr..], &mut out).is_err() || out.len() > 1400 - hdr {
+            return Ok(false);
+        }
+        alt.extend_from_slice(&out);
+    } else {
+        let mut out: Vec<u8> = Vec::with_capacity((data.len() - hdr) * 3 + 16);
+        if HUFFMAN.compress(&data[hdr..], &mut out).is_err() || out.len() + hdr > 1400 {
+            return Ok(false);
+        }
+        alt.extend_from_slice(&out);
+    }
+    let mut s1 = [0u8; 2048];
+    let mut s2 = [0u8; 2048];
+    let (a, b) = if is7 {
+        let mut w = Warnings::new();
+        let a = p7::Packet::read(&mut w, data, &mut s1[..]).ok().map(|p| seen7(&p));
+        let b = p7::Packet::read(&mut w, &alt, &mut s2[..]).ok().map(|p| seen7(&p));
+        (a, b)
+    } else {
+        let h = match hint % 3 {
+            0 => None,
+            1 => Some(false),
+            _ => Some(true),
+        };
+        let mut w = Warnings::new();
+        let a = p6::Packet::read(&mut w, data, h, &mut s1[..]).ok().map(|p| seen6(&p));
+        let b = p6::Packet::read(&mut w, &alt, h, &mut s2[..]).ok().map(|p| seen6(&p));
+        (a, b)
+    };
+    if a != b {
+        return Err(format!(
+            "the same packet reads differently depending on whether its payload is Huffman-compressed (token hint {}): [{}..] -> {} but [{}..] -> {}",
+            if is7 { "n/a".to_string() } else { format!("{:?}", hint % 3) },
+            hex(&data[..data.len().min(24)]),
+            a.as_ref().map(short).unwrap_or_else(|| "error".into()),
+            hex(&alt[..alt.len().min(24)]),
+            b.as_ref().map(short).unwrap_or_else(|| "error".into())
+        ));
+    }
+    Ok(a.is_some())
+}
+
 /// Entry point for fuzz targets and replays: all hints, both scratch sizes.
 pub fn check_bytes(data: &[u8], is7: bool) -> Result<ReadStats, String> {
     let mut last = ReadStats::default();
     for scratch in [1400usize, 2048] {
         if is7 {
             last = check_read7(data, scratch)?;
+            compression_invariance(data, 0, true)?;
         } else {
             for hint in 0..3 {
                 last = check_read6(data, hint, scratch)?;
+                compression_invariance(data, hint, false)?;
             }
         }
     }
@@ -481,7 +538,8 @@ fn check_hostile(h: &Hostile, is7: bool) -> PResult {
         bytes = apply_corrupt(bytes, c, is7);
     }
     let st = if is7 { check_read7(&bytes, 1400)? } else { check_read6(&bytes, h.hint, 1400)? };
-    Ok(outcome(&st, !h.corrupt.is_empty()))
+    let inv = compression_invariance(&bytes, h.hint, is7)?;
+    Ok(outcome(&st, !h.corrupt.is_empty()).class_if(inv, "both_wire_forms_accepted"))
 }
 
 fn outcome(st: &ReadStats, hostile: bool) -> Outcome {
@@ -573,7 +631,8 @@ fn check_huff(h: &HuffCase, is7: bool) -> PResult {
     d.extend_from_slice(&comp);
     d.truncate(1400);
     let st = if is7 { check_read7(&d, 1400)? } else { check_read6(&d, h.hint, 1400)? };
-    Ok(outcome(&st, true).class_if(h.plain_len as usize > 1397, "expands_beyond_packet"))
+    let inv = compression_invariance(&d, h.hint, is7)?;
+    Ok(outcome(&st, true).class_if(h.plain_len as usize > 1397, "expands_beyond_packet").class_if(inv, "both_wire_forms_accepted"))
 }
 
 fn short_string(idx: u64) -> Vec<u8> {
@@ -657,7 +716,8 @@ pub fn run(ctx: &Ctx) {
             },
             |(d, hint): &(Vec<u8>, u8)| {
                 let st = if is7 { check_read7(d, 1400)? } else { check_read6(d, *hint, 1400)? };
-                Ok(outcome(&st, true))
+                let inv = compression_invariance(d, *hint, is7)?;
+                Ok(outcome(&st, true).class_if(inv, "both_wire_forms_accepted"))
             },
         );
     }
